@@ -11,8 +11,9 @@ import sys
 import time
 
 VERIF = os.path.dirname(os.path.dirname(os.path.abspath(__file__)))
-WT = "/tmp/wt/seed"
-BUILD = "/tmp/wt/seedbuild"
+SLOT = os.environ.get("SEED_SLOT", "")       # a second slot lets two seed tests run side by side
+WT = "/tmp/wt/seed" + SLOT
+BUILD = "/tmp/wt/seedbuild" + SLOT
 
 
 def main():
